@@ -156,6 +156,40 @@ def fix_structure(ctx, rule='A5'):
            'the mask (membership test on the table)')
 
 
+def _vector_merge(ctx, m):
+    """_get_all_des_var_values interpreted for one generic position (rules/absint.py): the element is
+    `<fixed table>[pos]` exactly under `pos in <fixed table>`, else an element of the given vector addressed by
+    something else than pos (its own running index).  Loop with append, comprehension with a conditional expression
+    and helper forms read the same."""
+    from ..rules import absint
+    T = absint._t
+    helpers = {h.name: h for h in unit_functions(ctx.prog, m)[1:]}
+    paths = absint.Interp(m, helpers).run()
+    FV = ('attr', ('name', 'self'), '_fixed_values')
+    given = ('name', m.params[1]) if len(m.params) > 1 else None
+    seen = {True: [], False: []}
+    for q in paths:
+        if q.outcome[0] != 'return' or not isinstance(q.outcome[1], absint.AList) or len(q.outcome[1].items) != 1:
+            return False, f'result is not one element per position: {q.outcome}'
+        t = T(q.outcome[1].items[0])
+        conds = [(c, v) for c, v in q.conds if isinstance(c, tuple) and c[0] == 'in' and c[2] == FV]
+        if conds:
+            seen[conds[0][1]].append((t, conds[0][0][1]))
+            continue
+        if isinstance(t, tuple) and t[0] == 'ite':
+            test, flip = absint.canon(t[1])
+            if isinstance(test, tuple) and test[0] == 'in' and test[2] == FV:
+                seen[not flip].append((t[2], test[1]))
+                seen[flip].append((t[3], test[1]))
+                continue
+        return False, f'element `{absint.fmt(t)[:100]}` is not decided by membership in the fixed-value table'
+    if not seen[True] or not seen[False]:
+        return False, 'fixed / free side missing'
+    ok = all(t == ('index', FV, pos) for t, pos in seen[True]) and \
+        all(isinstance(t, tuple) and t[0] == 'index' and t[1] == given and t[2] != pos for t, pos in seen[False])
+    return ok, '; '.join(f'{"fixed" if k else "free"}: {absint.fmt(t)[:60]}' for k in (True, False) for t, _ in seen[k])
+
+
 def consumers(ctx, rule='A5c'):
     """Sibling agreement: every consumer of the vector layout filters by the same table."""
     cls = ctx.prog.cls(GP)
@@ -170,11 +204,10 @@ def consumers(ctx, rule='A5c'):
            'fixed_values = self._fixed_values' in t, m.where,
            'des_vars lists exactly the design variables whose index is not in the fixed-value table', t[:140])
     m, t = src('_get_all_des_var_values')
-    ok = 'values.append(fixed_values[i])' in t and 'values.append(des_var_values[i_value])' in t and \
-        'i_value += 1' in t
+    ok, detail = _vector_merge(ctx, m)
     ctx.ob(rule, fkey(m, rule, 'vector-merge'), ok, m.where,
-           'the full vector takes the fixed value at fixed positions and consumes the given vector in order at '
-           'the others', t[:160])
+           'the full vector takes the fixed value at fixed positions (looked up by the position among all variables) '
+           'and consumes the given vector - not indexed by that position - at the others', detail)
     m, t = src('get_graph')
     # the returned values and activeness cover the non-fixed variables only: somewhere in get_graph or the private
     # helpers it calls, membership in the fixed-value table decides what is kept (a filter `if i not in fixed`, a
@@ -209,8 +242,19 @@ def consumers(ctx, rule='A5c'):
     ctx.ob(rule, fkey(m, rule, 'decode-is-fixed-flags'), ok, m.where,
            'the analyzer is told which selection choices are fixed (so that correction never moves them)', '')
     m, t = src('get_all_discrete_x')
+    # the returned arrays are column-filtered by a selector computed from the fixed-value table
+    sel_ok = False
+    cols = [x.slice.elts[1] for x in ast.walk(m.node) if isinstance(x, ast.Subscript) and
+            isinstance(x.slice, ast.Tuple) and len(x.slice.elts) == 2 and isinstance(x.slice.elts[0], ast.Slice) and
+            x.slice.elts[0].lower is None and x.slice.elts[0].upper is None and isinstance(x.slice.elts[1], ast.Name)
+            and isinstance(x.ctx, ast.Load)]
+    free_sel = [c_ for c_ in cols if any('fixed_values' in norm(a_) for a_ in walk_fn(m) if isinstance(a_, ast.Assign)
+                                         and any(norm(t_) == c_.id or (isinstance(t_, ast.Subscript) and
+                                                                       norm(t_.value) == c_.id) for t_ in a_.targets))]
+    # both returned arrays (values and activeness) are cut with it
+    sel_ok = len({id(c_) for c_ in free_sel}) >= 2 and len({c_.id for c_ in free_sel}) == 1
     ok = 'self._existence_mask if with_fixed else self._existence_infeasibility_mask' in t and \
-        'i not in fixed_values' in t and 'values[[fixed_values[dv_idx]], :]' in t and \
+        sel_ok and 'values[[fixed_values[dv_idx]], :]' in t and \
         'fixed_values = self._fixed_values if with_fixed else {}' in t
     ctx.ob(rule, fkey(m, rule, 'enumeration-filter'), ok, m.where,
            'the enumeration keeps the combinations of the fixed-mask, expands a fixed discrete design-variable '
